@@ -235,6 +235,16 @@ MethodsC14generics == { MthP("POST", <<Prm("e", t, "Body", "", "")>>, <<"error">
 MethodsC14types == { MthP("POST", <<Prm("e", "p1.Hostile", "Body", "", "")>>, <<"error">>, <<>>, 0),
                      MthP("GET", <<>>, <<"[]p1.Hostile", "error">>, <<>>, 0) }
 
+\* ---- C10 / C09: two packages with the SAME last path segment (p1/api and p2/api, written "p1_api" / "p2_api": the harness lays the
+\*      package id out as a directory path and imports it under the id as alias), each declaring a same-named error type, of which
+\*      one may not embed 'error' - whatever is memoised per "alias.Name" confuses them --------------------------------------------
+TErrIn(pk, e) == [pkg |-> pk, file |-> "types", name |-> "ApiErr", kind |-> "struct", base |-> "", fields |-> <<Fld("Code", "int", "code", "")>>,
+                  consts |-> <<>>, desc |-> "", raw |-> "", errorT |-> e, deprecated |-> FALSE]
+TwinTypeSets == { <<TItem, TErrIn("p1_api", e1), TErrIn("p2_api", e2)>> : e1 \in BOOLEAN, e2 \in BOOLEAN } \ { <<TItem, TErrIn("p1_api", FALSE), TErrIn("p2_api", FALSE)>> }
+\* (controllers live in p1/api - which has an ApiErr of its own - and in p3, which has none; nobody imports them: no import cycle)
+CtrlsC10twin == { Ctl("p1_api", "f1", "AController", "/a", "A", <<>>), Ctl("p3", "f1", "BController", "/b", "B", <<>>) }
+MethodsC10twin == { MthP("GET", <<>>, <<"string", t>>, <<>>, 0) : t \in {"p1_api.ApiErr", "p2_api.ApiErr"} }
+
 \* ---- C09: names and packages that stress the string-built import aliases (ParamN<name>, ResponseN<type>) ----------------------
 Cfg9(vt, ge, vr) == [engine |-> "gin", version |-> "3.0.0", enforce |-> FALSE, default |-> NoSec, schemes |-> <<"s2", "s1">>,
                      validateTopLevelOnlyEnum |-> vt, generateEnumValidator |-> ge, validateResponsePayload |-> vr]
